@@ -56,6 +56,8 @@ func NewHTTPOp(n *Node) (*HTTPOp, error) {
 type APIError struct {
 	Status int
 	Msg    string
+	// Panicked: the handler panicked (the real server would drop the connection)
+	Panicked bool
 }
 
 func (e *APIError) Error() string { return fmt.Sprintf("api %d: %s", e.Status, e.Msg) }
@@ -77,7 +79,15 @@ func (a *HTTPOp) do(method, path string, q url.Values, body []byte) (json.RawMes
 		req.Header.Set("Content-Type", "application/json")
 	}
 	rec := httptest.NewRecorder()
-	a.h.ServeHTTP(rec, req)
+	var pan interface{}
+	func() {
+		// net/http recovers a handler panic per connection (the client sees the connection drop)
+		defer func() { pan = recover() }()
+		a.h.ServeHTTP(rec, req)
+	}()
+	if pan != nil {
+		return nil, &APIError{Status: 0, Msg: fmt.Sprintf("handler panicked: %v", pan), Panicked: true}
+	}
 	var env struct {
 		Result       json.RawMessage `json:"result"`
 		ErrorMessage string          `json:"error_message"`
@@ -88,7 +98,7 @@ func (a *HTTPOp) do(method, path string, q url.Values, body []byte) (json.RawMes
 		if msg == "" {
 			msg = rec.Body.String()
 		}
-		return nil, &APIError{rec.Code, msg}
+		return nil, &APIError{Status: rec.Code, Msg: msg}
 	}
 	return env.Result, nil
 }
